@@ -141,13 +141,17 @@ impl ConstantValue {
             }
             ConstantValue::BadAppleAudio => {
                 static MUSIC: OnceLock<Value> = OnceLock::new();
-                MUSIC
-                    .get_or_init(|| {
-                        let mut env = Uiua::with_backend(backend);
-                        env.run_str(include_str!("assets/bad_apple.ua")).unwrap();
-                        env.pop("samples").unwrap()
-                    })
-                    .clone()
+                if let Some(samples) = MUSIC.get() {
+                    samples.clone()
+                } else {
+                    // Generating the samples can fail, for example
+                    // if they do not fit in the configured memory limit
+                    let mut env = Uiua::with_backend(backend);
+                    env.run_str(include_str!("assets/bad_apple.ua"))
+                        .and_then(|_| env.pop("samples"))
+                        .map(|samples| MUSIC.get_or_init(|| samples).clone())
+                        .map_err(|e| format!("Failed to generate the Bad Apple audio: {e}"))?
+                }
             }
             ConstantValue::ThisFile => {
                 current_file_path.map_or_else(|| "".into(), |p| p.display().to_string().into())
